@@ -56,14 +56,15 @@ pub fn plan(prop: &str, tier: &str, ctx: &Ctx) -> (u64, u64, String) {
         "C01" => {
             let l = if thorough { 5 } else { 4 };
             let tl = if thorough { 4 } else { 3 };
-            let ex = (crate::gen::w5_count(l) + crate::gen::count_token_strings(tl)) * c01::W5_ENVS.len() as u64 + crate::gen::slide_count() * 5 + crate::gen::repeat_count() * 2;
+            let ex = (crate::gen::w5_count(l) + crate::gen::count_token_strings(tl)) * c01::W5_ENVS.len() as u64 + crate::gen::slide_count() * 5 + crate::gen::repeat_count() * 2 + crate::gen::escape_pair_count() * 3;
             (
                 ex + if thorough { 150_000_000 } else { 4_000_000 },
                 ex,
-                format!("every string of length <= {l} over the 14-symbol alphabet {:?} and every sequence of 1..{tl} tokens over the 36-token YAML alphabet {:?}, each x {} environments; plus {} sliding cases (a 2/3/4-byte character, literal or %-escaped, behind 0..40 ASCII characters in 14 constructs) x iterate and the four loaders; plus every ordered token pair repeated 255/256/257/1000 times x 2 clients", crate::gen::W5_ALPHABET, crate::gen::TOKENS, c01::W5_ENVS.len(), crate::gen::slide_count()),
+                format!("every string of length <= {l} over the 14-symbol alphabet {:?} and every sequence of 1..{tl} tokens over the 36-token YAML alphabet {:?}, each x {} environments; plus {} sliding cases (a 2/3/4-byte character, literal or %-escaped, behind 0..40 ASCII characters in 14 constructs) x iterate and the four loaders; plus every ordered token pair repeated 255/256/257/1000 times x 2 clients; plus every ordered pair of 26 edge-value escapes in a double-quoted scalar x 3 clients", crate::gen::W5_ALPHABET, crate::gen::TOKENS, c01::W5_ENVS.len(), crate::gen::slide_count()),
             )
         }
         "C17" => {
+            c17::HUGE_ON.store(thorough, Ordering::Relaxed);
             let (ex, desc) = c17::exhaustive_plan(ctx, thorough);
             (ex + if thorough { 60_000_000 } else { 2_500_000 }, ex, desc)
         }
